@@ -12,7 +12,7 @@ require golang.org/x/mod v0.23.0 // indirect
 require (
 	github.com/aptpod/iscp-proto v0.0.0-20230808235245-fada26057efa
 	github.com/coder/websocket v1.8.12 // indirect
-	github.com/gogo/protobuf v1.3.2 // indirect
+	github.com/gogo/protobuf v1.3.2
 	github.com/quic-go/qpack v0.5.1 // indirect
 	github.com/quic-go/quic-go v0.50.0
 	github.com/quic-go/webtransport-go v0.8.1-0.20241018022711-4ac2c9250e66 // indirect
